@@ -1,4 +1,5 @@
 # per-property run configuration for bin/vcheck
+MAP_CONFIG_ = None
 MAP_CONFIG = ["internal/config/config.go", "internal/config/validation.go", "internal/k8s/controllers/config_conversion.go", "internal/k8s/controllers/config_controller.go", "internal/k8s/controllers/pool_controller.go"]
 
 MAP_ALLOC = ["internal/allocator/allocator.go", "internal/allocator/k8salloc/k8salloc.go", "controller/main.go", "controller/service.go", "internal/config/config.go",
@@ -43,7 +44,9 @@ CONF = {
   "level": "exploration",
   "rule": "snapshot catalogue x every permutation of each listed kind (singly, and the full product for pairs of kinds) x explored map-iteration orders x 3 repetitions through real toConfig; a case is one (snapshot, validator, permutation set, map-order vector); distinct_nontrivial counts distinct non-identity permutation sets",
   "parts": [{"name": "main", "pkg": "internal/k8s/controllers", "test": "TestVerif_C18", "shards": {"quick": 8, "thorough": 16}},
-            {"name": "e2e", "pkg": "internal/k8s/controllers", "test": "TestVerif_C18e2e", "shards": {"quick": 8, "thorough": 16}}],
+            {"name": "e2e", "pkg": "internal/k8s/controllers", "test": "TestVerif_C18e2e", "shards": {"quick": 8, "thorough": 16}},
+            {"name": "integrated", "pkg": "controller", "test": "TestVerif_C18ctl", "shards": {"quick": 16, "thorough": 16}, "budget_s": {"quick": 100, "thorough": 900}, "gomaxprocs": 1,
+             "rewrites": {"map": MAP_ALLOC}}],
   "rewrites": {"map": MAP_CONFIG},
   "assumptions": ["map iteration orders explored: all orders of maps with <=3 keys, rotations+reversal above (DESIGN 2.1)",
                   "snapshots are drawn from a fixed catalogue (DESIGN 5/C18)"],
